@@ -224,6 +224,10 @@ func (g *G) serialise(gr Graph, compact, embed bool) C05Doc {
 	if g.coin(0.3) {
 		text = strings.ReplaceAll(text, ",", " ,\n  ")
 	}
+	if g.coin(0.4) {
+		// white space around the document (JSON allows space, tab, line feed, carriage return before and after the value)
+		text = g.pick([]string{"\n", " ", "\t", "\r\n  ", "\n\n    ", ""}) + text + g.pick([]string{"", "\n", "  \n", "\r\n", "\t"})
+	}
 	if embed {
 		form += "+embedded"
 	}
@@ -318,6 +322,12 @@ func genC05(g *G, n int, out io.Writer) {
 		c.Docs = append(c.Docs, g.serialise(gr, false, false), g.serialise(gr, false, true), g.serialise(gr, false, true), g.serialise(gr, true, g.coin(0.5)))
 		for k := 0; k < 2; k++ {
 			pc := genC01Graph(g, k, g.coin(0.5))
+			for vi := range pc.Validations {
+				if g.coin(0.5) {
+					// the message quotes node properties (possibly multi-valued, possibly links)
+					pc.Validations[vi].Message = fmt.Sprintf("failed %s: {{ex.%s}} / {{ex.%s}}", pc.Validations[vi].Name, g.pick(propPool), g.pick(propPool))
+				}
+			}
 			prof := ProfileSpec{Name: fmt.Sprintf("c05_%d_%d", i, k), Atoms: pc.Atoms, Paths: pc.Paths, Validations: pc.Validations}
 			c.Profiles = append(c.Profiles, prof.Render())
 		}
